@@ -88,11 +88,11 @@ func (c *pcase) buildErr() (err error, isS bool, parts []string, multi bool) {
 	switch c.errKind {
 	case "nil":
 		return nil, false, nil, false
-	case "new", "canceled", "wrapcanceled", "pkgcanceled", "deadline", "wrapdeadline":
+	case "new", "canceled", "wrapcanceled", "pkgcanceled", "deadline", "wrapdeadline", "long":
 		return errFromText(c.errText[0]), false, []string{c.errText[0]}, false
 	case "sentinel":
 		return sentinel, true, []string{sentinel.Error()}, false
-	case "wrapw":
+	case "wrapw", "longwrapw":
 		e := fmt.Errorf("%s: %w", c.errText[0], sentinel)
 		return e, true, []string{c.errText[0] + ": " + sentinel.Error()}, false
 	case "wrappkg":
@@ -100,7 +100,7 @@ func (c *pcase) buildErr() (err error, isS bool, parts []string, multi bool) {
 		return e, true, []string{c.errText[0] + ": " + sentinel.Error()}, false
 	case "custom":
 		return &customErr{c.errText[0]}, true, []string{c.errText[0]}, false
-	case "multi":
+	case "multi", "longmulti":
 		me := &multierror.Error{}
 		for i, t := range c.errText {
 			if c.partS[i] {
@@ -905,6 +905,51 @@ func rndMeta(r *wh.Rng, variant int) map[string]string {
 	return m
 }
 
+// lengths around typical broker limits for a header value (1 KiB, 4 KiB, 64 KiB)
+var longLens = []int{1000, 1023, 1024, 1025, 1100, 2048, 4096, 5000, 70000}
+
+func longText(r *wh.Rng, n int) string {
+	var sb strings.Builder
+	sb.WriteString("boom ")
+	for i := 0; sb.Len() < n-12; i++ {
+		sb.WriteString("in step " + strconv.Itoa(i) + ": ")
+	}
+	for sb.Len() < n-8 {
+		sb.WriteByte('.')
+	}
+	sb.WriteString("cause#" + strconv.Itoa(10+r.Intn(90)))
+	return sb.String()
+}
+
+// genLong: long error texts through every filter family, stand-alone and inside a Router
+func genLong(out *wh.Out, rng *wh.Rng, n int) {
+	kinds := []string{"long", "longwrapw", "longmulti"}
+	for i := 0; i < n; i++ {
+		c := rndCase(rng, "sa", kinds[i%3])
+		c.ptopic = "poison-" + rndStr(rng, 3)
+		c.pubFail = ""
+		if i%5 == 4 {
+			c.pubFail = "x" + "publisher down"
+		}
+		c.fillFilter(rng, []string{"all", "fall", "is", "text-hit", "text-empty"}[rng.Intn(5)])
+		obs := runSA(c)
+		out.Case(c.req(), obs)
+		count(out, c, obs)
+		out.Count("long_error_text")
+	}
+	proto := &pcase{ptopic: "poison-" + rndStr(rng, 3), filter: "all", ctxT: "in-long", ctxH: "h-long", ctxS: "sub.long"}
+	env := rtSetup(out, []*pcase{proto}, false)
+	for i := 0; i < n/3+1; i++ {
+		c := rndCase(rng, "rt", kinds[i%3])
+		c.ptopic, c.filter, c.ctxT, c.ctxH, c.ctxS = proto.ptopic, proto.filter, proto.ctxT, proto.ctxH, proto.ctxS
+		obs := env.run(c, 0)
+		out.Case(c.req(), obs)
+		count(out, c, obs)
+		out.Count("long_error_text")
+	}
+	env.close()
+}
+
 var errKinds = []string{"nil", "new", "sentinel", "wrapw", "wrappkg", "custom", "multi",
 	"canceled", "wrapcanceled", "pkgcanceled", "deadline", "wrapdeadline"}
 
@@ -913,6 +958,15 @@ func (c *pcase) fillErr(r *wh.Rng, kind string) {
 	c.errText, c.partS = nil, nil
 	switch kind {
 	case "nil", "sentinel":
+	case "long": // a long error text whose distinguishing part is at its end (as in a wrapped chain: the root cause comes last)
+		c.errText = []string{longText(r, longLens[r.Intn(len(longLens))])}
+	case "longwrapw":
+		c.errText = []string{longText(r, longLens[r.Intn(len(longLens))])}
+	case "longmulti":
+		for i, n := 0, 2+r.Intn(3); i < n; i++ {
+			c.errText = append(c.errText, "part"+strconv.Itoa(i)+" "+longText(r, 200+r.Intn(600)))
+			c.partS = append(c.partS, false)
+		}
 	case "canceled":
 		c.errText = []string{"context canceled"}
 	case "deadline":
@@ -1513,6 +1567,11 @@ func main() {
 	ctorCases(out, rng)
 	genSA(out, rng, reps)
 	genRT(out, rng, perRouter)
+	nLong := 30
+	if a.Thorough() {
+		nLong = 240
+	}
+	genLong(out, rng, nLong)
 	genSeq(out, rng, 12*reps)
 	genPQ2(out, rng, 2*reps)
 }
